@@ -933,6 +933,16 @@ class ExprMixin:
             v = z3.Int(fresh_name("q"))
             self.bind_target(gen.target, SV(v, T.Int), binds)
             return [v], z3.And(lo <= v, v < hi), binds, ("range", lo, hi)
+        if isinstance(it, ast.Call) and isinstance(it.func, ast.Name) and it.func.id == "enumerate" and len(it.args) == 1 \
+                and isinstance(it.args[0], ast.Call) and isinstance(it.args[0].func, ast.Name) and it.args[0].func.id == "zip":
+            # enumerate(zip(a, b, ...)): position + the tuple of elements at that position
+            ss = [self.ev(a, st) for a in it.args[0].args]
+            v = z3.Int(fresh_name("q"))
+            inner = T.Tup(*[s_.ty.elem for s_ in ss])
+            tt = T.Tup(T.Int, inner)
+            self.bind_target(gen.target, SV(tt.mk(v, inner.mk(*[z3.Select(s_.ty.arr(s_.t), v) for s_ in ss])), tt), binds)
+            g = z3.And(0 <= v, *[v < s_.ty.len(s_.t) for s_ in ss])
+            return [v], g, binds, ("zip", ss)
         if isinstance(it, ast.Call) and isinstance(it.func, ast.Name) and it.func.id == "enumerate":
             s = self.ev(it.args[0], st)
             v = z3.Int(fresh_name("q"))
